@@ -10,12 +10,34 @@
    c19.sizesearch <n>                →  cex v0,v1,…   a valuation of the obligation's variables (small integers) that satisfies
                                                       every fact of the site and violates its goal — found by evaluating the
                                                       same IR the theorem is about (SCond.check, proved equal to SCond.holds)
-                                        none          no such valuation in the boxes tried -/
+                                        none          no such valuation in the boxes tried
+   c19.loopopen                      →  the numbers (in Gen.Loop.loopSites) of the loops without a measure whose back edges are all proved
+   c19.loopedges <n>                 →  for loop n: per candidate measure `text=e1+e2+…` with a `!` behind every unproved entry
+   c19.loopsearch <k>                →  like sizesearch, for entry k of Gen.Loop.loopEntries: a valuation of ONE iteration under
+                                        which the measure does not decrease (or is negative at the head)
+   c19.convopen / c19.convsearch <k> →  the same for the conversion obligations (Gen.Conv.convEntries) -/
 import Csvq.Gen.ErrFacts
 import Csvq.Gen.SizeFacts
+import Csvq.Gen.LoopFacts
+import Csvq.Gen.IntConvFacts
 namespace Csvq.Drive
 open Csvq.ErrFacts
 open Csvq.SizeFacts
+
+def openOf (entries : List SizeEntry) : String :=
+  let open_ := (entries.zipIdx.filter (fun (e, _) => !e.proof.isYes)).map (fun (_, i) => toString i)
+  if open_.isEmpty then "-" else ",".intercalate open_
+
+def searchIn (entries : List SizeEntry) (n : String) : String :=
+  match n.toNat? with
+  | none => "bad-op"
+  | some k =>
+    match entries[k]? with
+    | none => "bad-op"
+    | some e =>
+      match e.site.counterexample with
+      | none => "none"
+      | some l => "cex " ++ ",".intercalate (l.map toString)
 
 def c19 (cmd : String) (args : List String) : String :=
   match cmd, args with
@@ -26,19 +48,23 @@ def c19 (cmd : String) (args : List String) : String :=
       match Csvq.Gen.argCountChecks.find? (fun c => c.table == table && c.name == name) with
       | none => "no-fact"
       | some c => if c.rejectsCount n then "lenerr" else "pass"
-  | "sizeopen", [] =>
-    let open_ := (Csvq.Gen.Size.sizeEntries.zipIdx.filter (fun (e, _) => !e.proof.isYes)).map (fun (_, i) => toString i)
+  | "sizeopen", [] => openOf Csvq.Gen.Size.sizeEntries
+  | "sizesearch", [n] => searchIn Csvq.Gen.Size.sizeEntries n
+  | "convopen", [] => openOf Csvq.Gen.IntConv.convEntries
+  | "convsearch", [n] => searchIn Csvq.Gen.IntConv.convEntries n
+  | "loopsearch", [n] => searchIn Csvq.Gen.Loop.loopEntries n
+  | "loopopen", [] =>
+    let open_ := (Csvq.Gen.Loop.loopSites.zipIdx.filter (fun (l, _) => !l.proved Csvq.Gen.Loop.loopEntries)).map (fun (_, i) => toString i)
     if open_.isEmpty then "-" else ",".intercalate open_
-  | "sizesearch", [n] =>
+  | "loopedges", [n] =>
     match n.toNat? with
     | none => "bad-op"
     | some k =>
-      match Csvq.Gen.Size.sizeEntries[k]? with
+      match Csvq.Gen.Loop.loopSites[k]? with
       | none => "bad-op"
-      | some e =>
-        match e.site.counterexample with
-        | none => "none"
-        | some l => "cex " ++ ",".intercalate (l.map toString)
+      | some l =>
+        let edge (i : Nat) : String := toString i ++ (match Csvq.Gen.Loop.loopEntries[i]? with | some e => if e.proof.isYes then "" else "!" | none => "?")
+        if l.cands.isEmpty then "-" else ";".intercalate (l.cands.map (fun c => "+".intercalate (c.2.map edge)))
   | _, _ => "bad-op"
 
 end Csvq.Drive
